@@ -602,7 +602,10 @@ var helpers = []helper{
 		return []*node{msg("error", "", el("body", "").text("x"), stanzaErr("cancel", "service-unavailable", "gone"))}
 	}},
 	{name: "receipts.SendMessage", call: func(ctx context.Context, e *env) (bool, error) {
-		err := e.rcpt.SendMessage(ctx, e.s, stanza.Message{To: peer, Type: stanza.ChatMessage}.Wrap(el2tokens("body", "x")))
+		// (stanza.Message.Wrap leaves the namespace empty, which SendMessage refuses)
+		start := xml.StartElement{Name: xml.Name{Space: nsClient, Local: "message"}, Attr: []xml.Attr{
+			{Name: xml.Name{Local: "to"}, Value: peerJID}, {Name: xml.Name{Local: "type"}, Value: "chat"}}}
+		err := e.rcpt.SendMessage(ctx, e.s, xmlstream.Wrap(el2tokens("body", "x"), start))
 		return err == nil, err
 	}, reply: func(r *rand.Rand, req *xmltree.Node, n int) []*node {
 		return []*node{msg("chat", "rcpt-reply", el("received", nsReceipts, "id", req.Attr("id")))}
